@@ -11,6 +11,7 @@ import (
 	"hash/crc32"
 	"runtime"
 	"runtime/debug"
+	"time"
 
 	"github.com/blevesearch/vellum"
 )
@@ -101,7 +102,13 @@ func vObserve(name string, v uint64) {
 
 func vNote(name string) { vState.notes = append(vState.notes, name) }
 
-func vRunSpawned() {}
+// vRunSpawned: under the engine the queued goroutine bodies run now; natively give them time to finish.
+func vRunSpawned() {
+	for i := 0; i < 20; i++ {
+		runtime.Gosched()
+	}
+	time.Sleep(5 * time.Millisecond)
+}
 
 func vIsConcrete(v uint64) bool { return true }
 
